@@ -83,10 +83,10 @@ def run_modules(chk, wd, quick):
         for f in sorted(os.listdir(corpus)):
             if f.endswith('.mir'):
                 mods.append(('corpus-' + f[:-4], open(os.path.join(corpus, f)).read()))
+    args = GM.ARGS[:4] if quick else GM.ARGS
     for i in range(n):
         feats = {'multi': i % 3 != 0}
         mods.append(('m%d' % i, GM.gen_module(rng, feats)))
-    args = GM.ARGS[:4] if quick else GM.ARGS
 
     asan = ('-O1', '-fsanitize=address', '-fno-omit-frame-pointer')
 
@@ -108,7 +108,7 @@ def run_modules(chk, wd, quick):
             chk.count(('module', hashlib.sha1(text.encode()).hexdigest()), nontrivial=True, n=len(args))
             chk.dist('module_insns', 'lines', text.count('\n'))
             for kw in ('switch', 'addo', 'subo', 'mulo', 'call', 'bss', 'string', 'ref ', 'alloca p1', 'bstart', 'addr p1', 'addr8', 'addr16',
-                       'addr32', 'laddr', 'jmpi', 'call p_hva', 'blk:16(p1)', 'ldadd', 'ld2i'):
+                       'addr32', 'laddr', 'jmpi', 'call p_hva', 'blk:16(p1)', 'ldadd', 'ld2i', 'forward', 'eq t9, p1, p2'):
                 if kw in text:
                     chk.dist('module_features', kw.strip())
             if res is None:
